@@ -26,9 +26,9 @@ fn nontrivial(table: &str, r: &[i64]) -> bool {
         },
         "serde" => match r[0] {
             0 | 1 => r[5] == 1,
-            2 | 3 | 9 => r[4] == 1,
+            2 | 3 | 9 | 12 => r[4] == 1,
             4 | 8 => r[7] == 1,
-            5 => r[5] == 1,
+            5 | 15 => r[5] == 1,
             6 => r[2] == 1,
             _ => true,
         },
@@ -45,7 +45,21 @@ pub struct ChunkWriter {
     table: String,
     seen: HashSet<u64>,
     distinct_nontrivial: u64,
+    /// non-trivial rows per class of row (table-specific key), for the vacuity gates
+    classes: std::collections::BTreeMap<String, u64>,
     w: Option<BufWriter<std::fs::File>>,
+}
+
+/// The class of a row for the vacuity gates ("was anything of this kind ever accepted?").
+fn class_of(table: &str, r: &[i64]) -> String {
+    match (table, r[0]) {
+        ("serde", 0) => format!("int.form{}", r[2]),
+        ("serde", 1) => "int.primitive".to_string(),
+        ("serde", 7) => format!("roundtrip.way{}", r[1] / 100),
+        ("serde", k) => format!("kind{}", k),
+        ("ints", k) => format!("kind{}", k),
+        _ => "row".to_string(),
+    }
 }
 
 impl ChunkWriter {
@@ -60,14 +74,19 @@ impl ChunkWriter {
             table: TABLE.lock().unwrap().clone(),
             seen: HashSet::new(),
             distinct_nontrivial: 0,
+            classes: Default::default(),
             w: None,
         }
     }
     pub fn push(&mut self, row: &[i64]) {
         let mut h = std::collections::hash_map::DefaultHasher::new();
         row.hash(&mut h);
-        if self.seen.insert(h.finish()) && nontrivial(&self.table, row) {
+        let nt = nontrivial(&self.table, row);
+        if self.seen.insert(h.finish()) && nt {
             self.distinct_nontrivial += 1;
+        }
+        if nt {
+            *self.classes.entry(class_of(&self.table, row)).or_insert(0) += 1;
         }
         if self.w.is_none() || self.n_in >= self.per {
             if let Some(mut w) = self.w.take() {
@@ -95,7 +114,8 @@ impl ChunkWriter {
             w.flush().unwrap();
         }
         // measured, for the evidence: distinct rows that are non-trivial by the rule above
-        println!("{{\"distinct_nontrivial\":{}}}", self.distinct_nontrivial);
+        let cl: Vec<String> = self.classes.iter().map(|(k, v)| format!("\"{}\":{}", k, v)).collect();
+        println!("{{\"distinct_nontrivial\":{},\"nontrivial_by_class\":{{{}}}}}", self.distinct_nontrivial, cl.join(","));
         (self.k, self.total)
     }
 }
